@@ -1,5 +1,5 @@
 (* Property C06 — label references resolve only within their lexical scope. *)
-From BA Require Import Base Bits Expr Subst Layout Program ProgramProofs.
+From BA Require Import Base Bits Expr Subst Cond CondEval Layout Data Program ProgramProofs ReaderProofs.
 
 (* whatever a reference resolves to was stored under: the local region of the referencing line, its file, or the global
    scope (and then the name is not a register) — never under another region or another file *)
@@ -42,3 +42,41 @@ Theorem C06_register_not_a_label : forall regs ls f n,
   mem n regs = true -> lfind ls (KFile f n) = None -> lookup_label regs ls (ScFile f) n = None.
 Proof. exact register_not_a_label. Qed.
 Print Assumptions C06_register_not_a_label.
+
+(* the local region of a line: a non-local label opens a fresh region (to which it already belongs) ... *)
+Theorem C06_nonlocal_label_opens_region : forall cfg load_file fid g fs acc n g' fs' acc',
+  item_step cfg load_file fid (g, fs, acc) (IStmt (SLabel n)) = Ok (g', fs', acc') -> currently_active (f_stack fs) = true ->
+  label_kind n <> LkLocal ->
+  f_scope fs' = ScLocal fid (g_region g) /\ g_region g' = S (g_region g) /\ f_zone fs' = f_zone fs
+  /\ exists p, acc' = p :: acc /\ p_scope p = ScLocal fid (g_region g) /\ p_zone p = f_zone fs.
+Proof. exact nonlocal_label_opens_region. Qed.
+Print Assumptions C06_nonlocal_label_opens_region.
+
+(* ... local labels stay in it ... *)
+Theorem C06_local_label_keeps_region : forall cfg load_file fid g fs acc n g' fs' acc',
+  item_step cfg load_file fid (g, fs, acc) (IStmt (SLabel n)) = Ok (g', fs', acc') -> currently_active (f_stack fs) = true ->
+  label_kind n = LkLocal ->
+  f_scope fs' = f_scope fs /\ g_region g' = g_region g /\ f_zone fs' = f_zone fs.
+Proof. exact local_label_keeps_region. Qed.
+Print Assumptions C06_local_label_keeps_region.
+
+(* ... and an origin or zone directive ends it *)
+Theorem C06_org_ends_region : forall cfg load_file fid g fs acc e zn g' fs' acc',
+  item_step cfg load_file fid (g, fs, acc) (IStmt (SOrg e zn)) = Ok (g', fs', acc') -> currently_active (f_stack fs) = true ->
+  f_scope fs' = ScFile fid /\ f_zone fs' = match zn with Some z => z | None => GLOBAL end
+  /\ exists p, acc' = p :: acc /\ p_zone p = match zn with Some z => z | None => GLOBAL end.
+Proof. exact org_resets_scope_and_zone. Qed.
+Print Assumptions C06_org_ends_region.
+
+Theorem C06_memzone_ends_region : forall cfg load_file fid g fs acc z g' fs' acc',
+  item_step cfg load_file fid (g, fs, acc) (IStmt (SMemzone z)) = Ok (g', fs', acc') -> currently_active (f_stack fs) = true ->
+  f_scope fs' = ScFile fid /\ f_zone fs' = z /\ exists zn, find_zone (g_zones g) z = Some zn.
+Proof. exact memzone_resets_scope_and_zone. Qed.
+Print Assumptions C06_memzone_ends_region.
+
+Theorem C06_register_label_rejected : forall cfg load_file fid g fs acc n,
+  currently_active (f_stack fs) = true -> is_register_name cfg n = true ->
+  (exists z, find_zone (g_zones g) (f_zone fs) = Some z) ->
+  item_step cfg load_file fid (g, fs, acc) (IStmt (SLabel n)) = Rejected.
+Proof. exact register_label_rejected. Qed.
+Print Assumptions C06_register_label_rejected.
